@@ -4,6 +4,7 @@ package c11
 
 import (
 	"fmt"
+	"reflect"
 	"runtime"
 	"sync"
 	"sync/atomic"
@@ -35,10 +36,11 @@ type Case struct {
 	Repeat  int    `json:"repeat"`
 	Hold    int    `json:"hold,omitempty"` // buffers each goroutine holds at the same time (0 = 1), released in get order or (Rev) newest first
 	Rev     bool   `json:"rev,omitempty"`
-	Table   bool   `json:"table,omitempty"` // holders also register every buffer in a shared ownership table (adds synchronisation, so only some cases use it)
+	PutView bool   `json:"putView,omitempty"` // every cycle puts back a Slice(0,k) view of the buffer it got (k varies) instead of the buffer itself
+	Table   bool   `json:"table,omitempty"`   // holders also register every buffer in a shared ownership table (adds synchronisation, so only some cases use it)
 }
 
-var Types = []string{"int8", "uint16", "int32", "float32", "float64", "uint64"}
+var Types = []string{"int8", "uint16", "int32", "float32", "float64", "uint64", "NInt16", "NFloat32"}
 
 func stampOf(g, cycle int) int64 { return int64(1 + (g*31+cycle*7)%120) }
 
@@ -79,6 +81,12 @@ func Check(c *Case) (res kit.Result) {
 	}
 	if c.Table {
 		res.Class("ownershipTable")
+	}
+	if c.PutView {
+		res.Class("viewsPutBack")
+		if c.GC {
+			res.Class("viewsPutBackWithGC")
+		}
 	}
 	if c.Warm > 0 {
 		res.Class("allocatorUsedBeforeCopies")
@@ -151,7 +159,7 @@ func runOnce(c *Case) (string, int64) {
 			}()
 			<-start
 			y := c.Yields[g]
-			seen := map[any]bool{}
+			seen := map[uintptr]bool{} // by address only: the map must not keep put-back buffers reachable
 			hold := c.Hold
 			if hold < 1 {
 				hold = 1
@@ -171,10 +179,11 @@ func runOnce(c *Case) (string, int64) {
 					}
 					bufs = append(bufs, b)
 					if len(seen) < 4096 {
-						if seen[b.Raw()] {
+						addr := reflect.ValueOf(b.Raw()).Pointer()
+						if seen[addr] {
 							recycled.Add(1)
 						}
-						seen[b.Raw()] = true
+						seen[addr] = true
 					}
 					if y&1 != 0 {
 						runtime.Gosched()
@@ -220,6 +229,9 @@ func runOnce(c *Case) (string, int64) {
 					if c.Table {
 						owners.Delete(b.Raw())
 					}
+					if c.PutView {
+						b = b.Slice(0, (cycle+hi)%(K+1))
+					}
 					p.Put(b)
 				}
 			}
@@ -245,7 +257,7 @@ func FP(c *Case) uint64 {
 		gc = 1
 	}
 	h.Ints([]int{c.C, c.L, c.K, c.G, c.M, c.Procs, gc, c.Repeat, c.Warm, c.Hold})
-	h.Str(fmt.Sprint(c.Rev, c.Table))
+	h.Str(fmt.Sprint(c.Rev, c.Table, c.PutView))
 	h.Ints(c.Yields)
 	for _, b := range c.ByValue {
 		if b {
@@ -272,6 +284,7 @@ func Gen(t *rapid.T) *Case {
 	}
 	c.Hold = rapid.SampledFrom([]int{1, 1, 2, 2, 3, 4}).Draw(t, "hold")
 	c.Rev = rapid.Bool().Draw(t, "rev")
+	c.PutView = rapid.IntRange(0, 2).Draw(t, "putView") == 0
 	hammer := c.K <= 64 && rapid.IntRange(0, 3).Draw(t, "hammer") == 0
 	if hammer { // tiny buffers, thousands of cycles: contention on the pool itself
 		c.C = rapid.IntRange(1, 2).Draw(t, "cHammer")
